@@ -602,6 +602,10 @@ func (encryptor *QueryDataEncryptor) encryptUpdateValues(ctx context.Context, up
 func (encryptor *QueryDataEncryptor) updatePlaceholderMap(valuesCount int, placeholders map[int]string, index int, columnName string) error {
 	// Placeholders use 1-based indexing and "values" (Go slice) are 0-based.
 	index--
+	if index < 0 {
+		// The value is not a placeholder (a literal or an expression): there is no bound value for it.
+		return nil
+	}
 	if index >= valuesCount {
 		logrus.WithFields(logrus.Fields{"placeholder": columnName, "index": index, "values": valuesCount}).
 			Warning("Invalid placeholder index")
@@ -633,6 +637,12 @@ func (encryptor *QueryDataEncryptor) encryptValuesWithPlaceholders(ctx context.C
 	for valueIndex, columnName := range placeholders {
 		if !schema.NeedToEncrypt(columnName) {
 			continue
+		}
+		if valueIndex < 0 || valueIndex >= len(oldValues) {
+			// The statement refers to a parameter that this Bind does not carry.
+			logrus.WithFields(logrus.Fields{"index": valueIndex, "column": columnName, "values": len(oldValues)}).
+				Warning("Invalid placeholder index")
+			return oldValues, false, base.ErrInvalidPlaceholder
 		}
 
 		// Allocate the result slice only if there are some values that need encryption.
